@@ -1,6 +1,8 @@
 //! C13 — Bus: gap-free per-output streams, pending counts, one pull per frame, minimal backlog.
-//! Stream `bus`: real `dasp_signal::bus` driven by send / next(i) / drop(i) sequences; compared with
-//! the Lean model (`Dasp.Bus.run`) and, independently, with an oracle written from the property text.
+//! Stream `bus`: real `dasp_signal::bus` driven by sequences over send / next(i) / drop(i) / drop of the
+//! `Bus` handle / `until_exhausted` over an output, on an infinite or a finite instrumented source;
+//! compared with the Lean model (`Dasp.Bus.runX`) and, independently, with an oracle written from the
+//! property text (plus, as a labelled extension, C05's notion of exhaustion applied to bus outputs).
 #[path = "../util.rs"]
 mod util;
 use dasp_signal::bus::{Bus, Output, SignalBus};
@@ -17,21 +19,28 @@ fn main() {
     }
 }
 
-/// Instrumented source: the i-th pull yields the frame `[salt + i]` and is logged.
-struct Src { salt: i64, log: Rc<RefCell<Vec<i64>>> }
+const UNTIL_CAP: usize = 200; // same bound as `untilCap` of the Lean driver
+
+/// Instrumented source: the i-th pull is logged and yields `[salt + i]` while `i < len`, the equilibrium
+/// `[0]` afterwards (like `signal::from_iter`); it reports exhaustion once `len` frames were pulled.
+struct Src { salt: i64, len: Option<usize>, log: Rc<RefCell<Vec<i64>>> }
+fn src_frame(salt: i64, len: Option<usize>, i: usize) -> i64 { if len.map(|n| i < n).unwrap_or(true) { salt + i as i64 } else { 0 } }
 impl Signal for Src {
     type Frame = [i64; 1];
     fn next(&mut self) -> [i64; 1] {
         let mut l = self.log.borrow_mut();
-        let v = self.salt + l.len() as i64;
+        let v = src_frame(self.salt, self.len, l.len());
         l.push(v);
         [v]
     }
+    fn is_exhausted(&self) -> bool { self.len.map(|n| self.log.borrow().len() >= n).unwrap_or(false) }
 }
 
 #[derive(Clone, Copy, PartialEq, Debug)]
-enum Op { Send, Next(usize), Drop(usize) }
-fn show_op(o: &Op) -> String { match o { Op::Send => "s".into(), Op::Next(k) => format!("n{}", k), Op::Drop(k) => format!("d{}", k) } }
+enum Op { Send, Next(usize), Drop(usize), DropBus, Until(usize) }
+fn show_op(o: &Op) -> String {
+    match o { Op::Send => "s".into(), Op::Next(k) => format!("n{}", k), Op::Drop(k) => format!("d{}", k), Op::DropBus => "b".into(), Op::Until(k) => format!("u{}", k) }
+}
 
 /// Reference bookkeeping written from the property text only: where each output was attached
 /// (number of frames anybody had pulled at that moment) and how many frames it has received.
@@ -40,53 +49,67 @@ struct Oracle { attach: Vec<usize>, recv: Vec<usize>, live: Vec<bool> }
 impl Oracle {
     fn cursor(&self, i: usize) -> usize { self.attach[i] + self.recv[i] }
     fn live_ids(&self) -> Vec<usize> { (0..self.live.len()).filter(|&i| self.live[i]).collect() }
+    fn send(&mut self, pulls: usize) { self.attach.push(pulls); self.recv.push(0); self.live.push(true); }
 }
 
 struct Outcome { op_line: String, obs_line: String, nontrivial: bool, evals: u64 }
 
+fn case_text(salt: i64, len: Option<usize>, ops: &[Op]) -> String {
+    let mut t = format!("bus {} {}", salt, len.map(|n| n.to_string()).unwrap_or("inf".into()));
+    // keep replays readable: the failing prefix is what matters, long tails are cut by the caller
+    for o in ops { t.push(' '); t.push_str(&show_op(o)); }
+    t
+}
+
 /// run one sequence on the real bus; every observation is checked against the oracle
-fn run_case(salt: i64, ops: &[Op], st: &mut Stream) -> Outcome {
+fn run_case(salt: i64, len: Option<usize>, ops: &[Op], st: &mut Stream) -> Outcome {
     let log = Rc::new(RefCell::new(Vec::<i64>::new()));
-    let bus: Bus<Src> = Src { salt, log: log.clone() }.bus();
+    let mut bus: Option<Bus<Src>> = Some(Src { salt, len, log: log.clone() }.bus());
     let mut outs: Vec<Option<Output<Src>>> = Vec::new();
     let mut or = Oracle::default();
-    let mut op_line = format!("bus {}", salt);
+    let mut op_line = format!("bus {} {}", salt, len.map(|n| n.to_string()).unwrap_or("inf".into()));
     let mut obs = String::new();
     let mut nontrivial = false;
     let mut evals = 0u64;
-    let case_text = || format!("bus {} {}", salt, ops.iter().map(show_op).collect::<Vec<_>>().join(" "));
+    let mut failed = false;
     for (n, op) in ops.iter().enumerate() {
         op_line.push(' '); op_line.push_str(&show_op(op));
         if n > 0 { obs.push(' '); }
+        // a failing case is reported with the prefix up to the failing operation (replay stays short)
+        let ct = || case_text(salt, len, &ops[..=n]);
         let pulls_before = log.borrow().len();
         let lagging = or.live_ids().iter().any(|&i| or.cursor(i) < pulls_before);
         let ret: String = match *op {
             Op::Send => {
                 if lagging { nontrivial = true; st.count("send_while_an_output_lags"); }
                 if !or.live.is_empty() && or.live_ids().is_empty() { st.count("reattach_after_all_dropped"); }
-                match guarded(|| bus.send()) {
+                let b = bus.as_ref().expect("generator: send after the handle was dropped");
+                match guarded(|| b.send()) {
                     Some(o) => {
                         outs.push(Some(o));
                         // "begins with the first frame nobody had pulled when it was attached"
-                        or.attach.push(pulls_before); or.recv.push(0); or.live.push(true);
+                        or.send(pulls_before);
                         format!("k{}", outs.len() - 1)
                     }
-                    None => { st.oracle_fail("send panicked", &case_text(), "an output", "panic"); "panic".into() }
+                    None => { st.oracle_fail("send panicked", &ct(), "an output", "panic"); failed = true; "panic".into() }
                 }
             }
             Op::Next(i) => {
-                let want = salt + or.cursor(i) as i64; // the contiguous run: attach, attach+1, …
+                let want = src_frame(salt, len, or.cursor(i)); // the contiguous run: attach, attach+1, …
                 if or.cursor(i) < pulls_before { st.count("next_from_backlog"); } else { st.count("next_pulls_source"); }
+                if bus.is_none() { st.count("next_after_handle_dropped"); }
+                if len.map(|l| or.cursor(i) >= l).unwrap_or(false) { st.count("next_past_the_end_of_the_source"); }
                 let o = outs[i].as_mut().unwrap();
                 match guarded(|| o.next()) {
                     Some([f]) => {
                         if f != want {
-                            st.oracle_fail(&format!("output {} did not receive the next frame of its contiguous run (op #{})", i, n), &case_text(), &want.to_string(), &f.to_string());
+                            st.oracle_fail(&format!("output {} did not receive the next frame of its contiguous run (op #{})", i, n), &ct(), &want.to_string(), &f.to_string());
+                            failed = true;
                         } else { st.oracle_ok(1); }
                         or.recv[i] += 1;
                         format!("f{}", f)
                     }
-                    None => { st.oracle_fail("next panicked", &case_text(), &want.to_string(), "panic"); or.recv[i] += 1; "panic".into() }
+                    None => { st.oracle_fail(&format!("next on output {} panicked (op #{})", i, n), &ct(), &want.to_string(), "panic"); failed = true; or.recv[i] += 1; "panic".into() }
                 }
             }
             Op::Drop(i) => {
@@ -103,14 +126,46 @@ fn run_case(salt: i64, ops: &[Op], st: &mut Stream) -> Outcome {
                 or.live[i] = false;
                 match guarded(move || drop(o)) {
                     Some(()) => "d".into(),
-                    None => { st.oracle_fail("drop panicked", &case_text(), "", "panic"); "panic".into() }
+                    None => { st.oracle_fail("drop panicked", &ct(), "", "panic"); failed = true; "panic".into() }
+                }
+            }
+            Op::DropBus => {
+                // the handle goes away; the outputs must be unaffected (nothing in the property depends on it)
+                st.count(&format!("handle_dropped_with_{}_live_outputs", or.live_ids().len().min(4)));
+                if !or.live_ids().is_empty() { nontrivial = true; }
+                let b = bus.take().unwrap();
+                match guarded(move || drop(b)) { Some(()) => "d".into(), None => { st.oracle_fail("dropping the Bus handle panicked", &ct(), "", "panic"); failed = true; "panic".into() } }
+            }
+            Op::Until(i) => {
+                // EXTENSION (C05's exhaustion on the bus): `until_exhausted` over an output yields exactly the frames
+                // from its position to the end of the source (or of what was already pulled beyond it), then stops
+                let end = len.expect("generator: until_exhausted only on a finite source").max(pulls_before);
+                let c = or.cursor(i);
+                let want: Vec<i64> = (c..end.max(c)).map(|j| src_frame(salt, len, j)).collect();
+                if lagging { nontrivial = true; }
+                st.count("until_exhausted");
+                let o = outs[i].take().unwrap();
+                or.live[i] = false;
+                let got = guarded(move || o.until_exhausted().take(UNTIL_CAP + 1).map(|f| f[0]).collect::<Vec<i64>>());
+                match got {
+                    Some(g) => {
+                        if g != want {
+                            st.oracle_fail(&format!("until_exhausted over output {} (op #{}) did not yield exactly the frames up to the end of the source", i, n), &ct(),
+                                &format!("{:?}", want), &format!("{:?}{}", &g[..g.len().min(12)], if g.len() > 12 { format!("… ({} frames)", g.len()) } else { String::new() }));
+                            failed = true;
+                        } else { st.oracle_ok(1); }
+                        or.recv[i] += g.len();
+                        if g.len() > UNTIL_CAP { "noend".into() } else { format!("u{}", g.iter().map(|x| x.to_string()).collect::<Vec<_>>().join("_")) }
+                    }
+                    None => { st.oracle_fail("until_exhausted panicked", &ct(), "", "panic"); failed = true; "panic".into() }
                 }
             }
         };
         evals += 1;
         // ---- observations after the op
         let pulls = log.borrow().len();
-        let backlog = guarded(|| bus.verif_backlog_len());
+        let src_done = len.map(|l| pulls >= l).unwrap_or(false);
+        let backlog = bus.as_ref().map(|b| guarded(|| b.verif_backlog_len()));
         let live = or.live_ids();
         let mut pend_s: Vec<String> = Vec::new();
         for &i in &live {
@@ -120,75 +175,105 @@ fn run_case(salt: i64, ops: &[Op], st: &mut Stream) -> Outcome {
             let want = pulls as i128 - or.cursor(i) as i128;
             match p {
                 Some(p) if p as i128 == want => st.oracle_ok(1),
-                _ => st.oracle_fail(&format!("pending_frames of output {} after op #{}", i, n), &case_text(), &want.to_string(), &format!("{:?}", p)),
+                _ => { st.oracle_fail(&format!("pending_frames of output {} after op #{}", i, n), &ct(), &want.to_string(), &format!("{:?}", p)); failed = true; }
             }
-            pend_s.push(format!("{}:{}", i, p.map(|x| x.to_string()).unwrap_or("panic".into())));
+            // EXTENSION: an output that has received every pulled frame of an exhausted source reports exhaustion,
+            // whatever other outputs still have pending; otherwise it does not
+            let ex = guarded(|| o.is_exhausted());
+            let want_ex = want == 0 && src_done;
+            if ex != Some(want_ex) { st.oracle_fail(&format!("is_exhausted of output {} after op #{}", i, n), &ct(), &want_ex.to_string(), &format!("{:?}", ex)); failed = true; } else { st.oracle_ok(1); }
+            if want_ex { st.count(if live.iter().any(|&j| or.cursor(j) < pulls) { "exhausted_output_while_another_lags" } else { "exhausted_output" }); }
+            pend_s.push(format!("{}:{}{}", i, p.map(|x| x.to_string()).unwrap_or("panic".into()), match ex { Some(true) => "x", Some(false) => "", None => "panic" }));
             evals += 1;
         }
         // "The source is pulled exactly once per distinct frame": the pulls so far are exactly the frames
         // some output (live or dropped) has received, i.e. as many as the furthest cursor ever reached.
         let furthest = (0..or.attach.len()).map(|i| or.cursor(i)).max().unwrap_or(0);
-        if pulls != furthest || pulls < pulls_before || pulls > pulls_before + 1 || (pulls != pulls_before && !matches!(op, Op::Next(_))) {
-            st.oracle_fail(&format!("source pull count after op #{}", n), &case_text(), &furthest.to_string(), &pulls.to_string());
+        let single_step = matches!(op, Op::Next(_)) && pulls <= pulls_before + 1 || matches!(op, Op::Until(_)) || pulls == pulls_before;
+        if pulls != furthest || pulls < pulls_before || !single_step {
+            st.oracle_fail(&format!("source pull count after op #{}", n), &ct(), &furthest.to_string(), &pulls.to_string()); failed = true;
         } else { st.oracle_ok(1); }
         // "the backlog always holds exactly the pulled frames that the slowest live output has not yet
         //  received, so it is empty whenever all live outputs have caught up or none remain"
         let want_backlog = match live.iter().map(|&i| or.cursor(i)).min() { Some(m) => pulls - m.min(pulls), None => 0 };
-        if backlog != Some(want_backlog) {
-            st.oracle_fail(&format!("backlog length after op #{}", n), &case_text(), &want_backlog.to_string(), &format!("{:?}", backlog));
-        } else { st.oracle_ok(1); }
+        if let Some(bl) = backlog {
+            if bl != Some(want_backlog) {
+                st.oracle_fail(&format!("backlog length after op #{}", n), &ct(), &want_backlog.to_string(), &format!("{:?}", bl)); failed = true;
+            } else { st.oracle_ok(1); }
+        }
         if want_backlog > 0 { st.count("states_with_nonempty_backlog"); } else { st.count("states_with_empty_backlog"); }
-        obs.push_str(&format!("{}/P{}/B{}/{}", ret, pulls, backlog.map(|x| x.to_string()).unwrap_or("panic".into()),
-            if pend_s.is_empty() { "-".to_string() } else { pend_s.join(",") }));
+        let b_s = match backlog { Some(Some(x)) => x.to_string(), Some(None) => "panic".into(), None => "-".into() };
+        obs.push_str(&format!("{}/P{}/B{}/{}", ret, pulls, b_s, if pend_s.is_empty() { "-".to_string() } else { pend_s.join(",") }));
+        if failed { // the real bus is in an unspecified state now; stop this case (the lines still differ from the model's)
+            break;
+        }
     }
-    // the source itself handed out salt, salt+1, … once each (sanity of the instrumentation)
-    for (i, &v) in log.borrow().iter().enumerate() { if v != salt + i as i64 { st.oracle_fail("instrumented source log", &case_text(), "", ""); } }
-    drop(outs); drop(bus);
+    // the source itself handed out its frames once each, in order (sanity of the instrumentation)
+    for (i, &v) in log.borrow().iter().enumerate() { if v != src_frame(salt, len, i) { st.oracle_fail("instrumented source log", &case_text(salt, len, ops), "", ""); } }
+    let _ = guarded(move || { drop(outs); drop(bus); });
     Outcome { op_line, obs_line: obs, nontrivial, evals }
 }
 
-fn emit(salt: i64, ops: &[Op], st: &mut Stream) {
-    let o = run_case(salt, ops, st);
-    for op in ops { st.count(match op { Op::Send => "op_send", Op::Next(_) => "op_next", Op::Drop(_) => "op_drop" }); }
+fn emit(salt: i64, len: Option<usize>, ops: &[Op], st: &mut Stream) {
+    let o = run_case(salt, len, ops, st);
+    for op in ops { st.count(match op { Op::Send => "op_send", Op::Next(_) => "op_next", Op::Drop(_) => "op_drop", Op::DropBus => "op_drop_bus_handle", Op::Until(_) => "op_until_exhausted" }); }
+    st.count(if len.is_some() { "finite_source" } else { "infinite_source" });
     st.case(&o.op_line, &o.obs_line, o.nontrivial, o.evals);
 }
 
-/// all sequences of length 1..=depth over at most `max_live` simultaneously live outputs
-fn enumerate(depth: usize, max_live: usize, seq: &mut Vec<Op>, live: &mut Vec<usize>, next_id: usize, st: &mut Stream, salt: i64) {
-    // called once per exact length (shortest sequences first, so the first reported failure is a shortest one)
-    if seq.len() == depth { emit(salt, seq, st); st.count(&format!("exhaustive_len_{}", seq.len())); return; }
-    if live.len() < max_live {
+/// all sequences of exactly `depth` operations over at most `max_live` simultaneously live outputs
+/// (called once per length: shortest first, so the first reported failure is a shortest one)
+fn enumerate(depth: usize, max_live: usize, seq: &mut Vec<Op>, live: &mut Vec<usize>, next_id: usize, handle: bool, st: &mut Stream, salt: i64, len: Option<usize>) {
+    if seq.len() == depth { emit(salt, len, seq, st); st.count(&format!("exhaustive_{}_len_{}", if len.is_some() { "finite" } else { "inf" }, seq.len())); return; }
+    if handle && live.len() < max_live {
         seq.push(Op::Send); live.push(next_id);
-        enumerate(depth, max_live, seq, live, next_id + 1, st, salt);
+        enumerate(depth, max_live, seq, live, next_id + 1, handle, st, salt, len);
         live.pop(); seq.pop();
+    }
+    if handle {
+        seq.push(Op::DropBus);
+        enumerate(depth, max_live, seq, live, next_id, false, st, salt, len);
+        seq.pop();
     }
     for idx in 0..live.len() {
         let id = live[idx];
         seq.push(Op::Next(id));
-        enumerate(depth, max_live, seq, live, next_id, st, salt);
+        enumerate(depth, max_live, seq, live, next_id, handle, st, salt, len);
         seq.pop();
         seq.push(Op::Drop(id)); live.remove(idx);
-        enumerate(depth, max_live, seq, live, next_id, st, salt);
+        enumerate(depth, max_live, seq, live, next_id, handle, st, salt, len);
         live.insert(idx, id); seq.pop();
+        if len.is_some() {
+            seq.push(Op::Until(id)); live.remove(idx);
+            enumerate(depth, max_live, seq, live, next_id, handle, st, salt, len);
+            live.insert(idx, id); seq.pop();
+        }
     }
 }
 
 /// one random sequence; `flavour` biases it towards the situations named in the property's rationale
-fn random_seq(rng: &mut Rng, flavour: u64, len: usize, max_live: usize) -> Vec<Op> {
+fn random_seq(rng: &mut Rng, flavour: u64, len: usize, max_live: usize, src_len: Option<usize>) -> Vec<Op> {
+    let finite = src_len.is_some();
     let mut ops = Vec::with_capacity(len);
     let mut or = Oracle::default();
     let mut pulls = 0usize;
     let mut lazy: Vec<bool> = Vec::new(); // outputs that never pull
+    let mut handle = true;
+    // a third of the sequences drop the Bus handle at some point (no sends afterwards)
+    let drop_handle_at = if rng.chance(1, 3) { Some(rng.usize_below(len.max(1))) } else { None };
     // half of the sequences start with several outputs attached at once
     let initial = if rng.chance(1, 2) { 1 + rng.usize_below(max_live) } else { 0 };
     for _ in 0..initial.min(len) {
-        ops.push(Op::Send); or.attach.push(0); or.recv.push(0); or.live.push(true);
+        ops.push(Op::Send); or.send(0);
         lazy.push(flavour == 4 && rng.chance(1, 3) || rng.chance(1, 10));
     }
     while ops.len() < len {
         let live = or.live_ids();
+        if handle && drop_handle_at.map(|t| ops.len() >= t).unwrap_or(false) && !live.is_empty() { ops.push(Op::DropBus); handle = false; continue; }
+        if live.is_empty() && !handle { break; }
         let active: Vec<usize> = live.iter().cloned().filter(|&i| !lazy[i]).collect();
         let r = rng.below(100);
+        let can_send = handle && live.len() < max_live;
         let op = if live.is_empty() { Op::Send } else {
             match flavour {
                 // lock-step rounds over all active outputs
@@ -203,25 +288,26 @@ fn random_seq(rng: &mut Rng, flavour: u64, len: usize, max_live: usize) -> Vec<O
                     Op::Drop(pick)
                 }
                 // drop everything, then re-attach
-                3 if r < 6 => Op::Drop(live[0]),
+                3 if r < 6 && handle => Op::Drop(live[0]),
                 _ => {
-                    if r < 12 && live.len() < max_live { Op::Send }
-                    else if r < 22 { Op::Drop(*rng.pick(&live)) }
+                    if r < 12 && can_send { Op::Send }
+                    else if r < 22 { if finite && rng.chance(1, 3) { Op::Until(*rng.pick(&live)) } else { Op::Drop(*rng.pick(&live)) } }
                     else if !active.is_empty() {
                         // bursts: prefer the same output again sometimes
                         if let (Some(Op::Next(k)), true) = (ops.last().cloned(), rng.chance(1, 2)) { if or.live[k] { Op::Next(k) } else { Op::Next(*rng.pick(&active)) } }
                         else { Op::Next(*rng.pick(&active)) }
-                    } else if live.len() < max_live { Op::Send } else { Op::Drop(*rng.pick(&live)) }
+                    } else if can_send { Op::Send } else { Op::Drop(*rng.pick(&live)) }
                 }
             }
         };
         match op {
-            Op::Send => { or.attach.push(pulls); or.recv.push(0); or.live.push(true); lazy.push(flavour == 4 && rng.chance(1, 3) || rng.chance(1, 10)); }
+            Op::Send => { or.send(pulls); lazy.push(flavour == 4 && rng.chance(1, 3) || rng.chance(1, 10)); }
             Op::Next(i) => { or.recv[i] += 1; pulls = pulls.max(or.cursor(i)); }
+            Op::Until(i) => { or.live[i] = false; pulls = pulls.max(src_len.unwrap_or(0)); }
+            Op::DropBus => {}
             Op::Drop(i) => {
                 or.live[i] = false;
                 if flavour == 3 && !or.live_ids().is_empty() && ops.len() + 1 < len {
-                    // finish dropping the rest right away
                     ops.push(op);
                     for j in or.live_ids() { if ops.len() < len { ops.push(Op::Drop(j)); or.live[j] = false; } }
                     continue;
@@ -233,24 +319,73 @@ fn random_seq(rng: &mut Rng, flavour: u64, len: usize, max_live: usize) -> Vec<O
     ops
 }
 
+/// MANY attachments over one bus's lifetime: a few long-lived outputs attached first stay attached while
+/// `sends` short-lived (sometimes longer-lived) outputs come and go, mixed with pulls on all of them.
+/// Keys are never recycled, so the late outputs carry keys far above the number of live outputs.
+fn long_lived_seq(rng: &mut Rng, sends: usize, sync: u64) -> Vec<Op> {
+    // `sync` (0..=4, of 4): how often everybody is brought level at the end of a round, so that the next
+    // output is attached to an empty backlog (in-step use) rather than while others lag
+    let mut ops = Vec::new();
+    let mut or = Oracle::default();
+    let mut pulls = 0usize;
+    let mains = 1 + rng.usize_below(3);
+    for _ in 0..mains { ops.push(Op::Send); or.send(0); }
+    let mut monitors: Vec<usize> = Vec::new();
+    let mut live_mains: Vec<usize> = (0..mains).collect();
+    fn next(ops: &mut Vec<Op>, or: &mut Oracle, pulls: &mut usize, i: usize) { ops.push(Op::Next(i)); or.recv[i] += 1; *pulls = (*pulls).max(or.cursor(i)); }
+    while or.attach.len() < sends {
+        let m = or.attach.len();
+        ops.push(Op::Send); or.send(pulls); monitors.push(m);
+        for _ in 0..(1 + rng.usize_below(4)) {
+            let r = rng.below(10);
+            let who = if r < 5 && !live_mains.is_empty() { *rng.pick(&live_mains) } else if r < 8 { *monitors.last().unwrap() } else { *rng.pick(&monitors) };
+            next(&mut ops, &mut or, &mut pulls, who);
+        }
+        // the newest monitor usually goes away again; now and then an older one or a long-lived one does
+        if rng.chance(4, 5) { if let Some(m) = monitors.pop() { ops.push(Op::Drop(m)); or.live[m] = false; } }
+        if monitors.len() > 5 || (!monitors.is_empty() && rng.chance(1, 12)) { let i = rng.usize_below(monitors.len()); let m = monitors.remove(i); ops.push(Op::Drop(m)); or.live[m] = false; }
+        if live_mains.len() > 1 && rng.chance(1, 150) { let i = rng.usize_below(live_mains.len()); let m = live_mains.remove(i); ops.push(Op::Drop(m)); or.live[m] = false; }
+        if rng.below(4) < sync {
+            for i in or.live_ids() { while or.cursor(i) < pulls { next(&mut ops, &mut or, &mut pulls, i); } }
+        }
+    }
+    // a final lock-step round over everything still alive
+    for _ in 0..3 { for i in or.live_ids() { next(&mut ops, &mut or, &mut pulls, i); } }
+    ops
+}
+
 pub fn run(a: &Args) {
     let mut st = Stream::new(&a.out, "bus");
     let mut rng = Rng::new(a.seed, "bus");
-    // ---- exhaustive: every sequence up to the depth, at most 3 simultaneously live outputs
-    let depth = if a.thorough() { 10 } else { 8 };
-    for d in 1..=depth { enumerate(d, 3, &mut Vec::new(), &mut Vec::new(), 0, &mut st, 1000); }
-    st.note(&format!("exhaustive part: every send/next/drop sequence of length 1..={} with at most 3 simultaneously live outputs ({} cases)", depth, st.cases));
-    // ---- random longer sequences, up to 8 simultaneously live outputs
+    // ---- exhaustive over the alphabet {send, next i, drop i, drop the Bus handle}, infinite source,
+    //      and {…, until_exhausted i} on a finite source of 2 frames; at most 3 simultaneously live outputs
+    let depth = if a.thorough() { 9 } else { 7 };
+    for d in 1..=depth { enumerate(d, 3, &mut Vec::new(), &mut Vec::new(), 0, true, &mut st, 1000, None); }
+    let depth_f = if a.thorough() { 8 } else { 6 };
+    for d in 1..=depth_f { enumerate(d, 3, &mut Vec::new(), &mut Vec::new(), 0, true, &mut st, 1000, Some(2)); }
+    st.note(&format!("exhaustive part: every sequence over send / next i / drop i / drop-the-Bus-handle of length 1..={} on an infinite source, and additionally with until_exhausted i of length 1..={} on a 2-frame source, at most 3 simultaneously live outputs ({} cases)", depth, depth_f, st.cases));
+    // ---- random longer sequences, up to 8 simultaneously live outputs, infinite and finite sources
     let n_rand = if a.thorough() { 60_000 } else { 4_000 };
     for c in 0..n_rand {
         let flavour = c % 5;
         let len = 10 + rng.usize_below(71);
         let max_live = 1 + rng.usize_below(8);
         let salt = rng.range(-1_000_000, 1_000_000);
-        let ops = random_seq(&mut rng, flavour as u64, len, max_live);
+        let src_len = if rng.chance(1, 2) { Some(rng.usize_below(31)) } else { None };
+        let ops = random_seq(&mut rng, flavour as u64, len, max_live, src_len);
         st.count(&format!("random_flavour_{}", ["uniform", "lockstep", "drop_extremes", "drop_all_reattach", "lazy_outputs"][flavour as usize]));
         st.count(&format!("random_max_live_{}", max_live));
-        emit(salt, &ops, &mut st);
+        emit(salt, src_len, &ops, &mut st);
+    }
+    // ---- many attachments on one bus (more than 64 / 128 / 300 sends) with long-lived early outputs
+    let mut many: Vec<usize> = vec![70, 140, 330, 70, 140, 330, 70, 140, 330, 70, 140, 330, 70, 140, 330];
+    if a.thorough() { for _ in 0..150 { many.push(65 + rng.usize_below(400)); } many.push(1100); }
+    for (n, sends) in many.into_iter().enumerate() {
+        let ops = long_lived_seq(&mut rng, sends, (n % 5) as u64);
+        st.count(&format!("many_attachments_level_everybody_{}_of_4_rounds", n % 5));
+        st.count(&format!("many_attachments_over_{}", if sends > 1000 { 1000 } else if sends > 300 { 300 } else if sends > 128 { 128 } else { 64 }));
+        let src_len = if rng.chance(1, 4) { Some(rng.usize_below(200)) } else { None };
+        emit(rng.range(-1000, 1000), src_len, &ops, &mut st);
     }
     // ---- long lock-step run (the allocation-free audio-thread situation): backlog must stay bounded
     for outs in 1..=8usize {
@@ -258,7 +393,7 @@ pub fn run(a: &Args) {
         let rounds = (80 - outs) / outs;
         for _ in 0..rounds { for i in 0..outs { ops.push(Op::Next(i)); } }
         st.count("lockstep_long");
-        emit(7, &ops, &mut st);
+        emit(7, None, &ops, &mut st);
     }
     st.exhaustive = false; // the random part is a sample
     st.finish();
